@@ -240,6 +240,7 @@ struct Runner {
     store: Option<RaftLog<VT>>,
     dump: Option<raft_log::Dump<VT>>,
     held: Vec<i32>,
+    snap: Option<raft_log::DumpRaftLog<VT>>,
     stopped: bool,
     timeout: Duration,
 }
@@ -372,6 +373,7 @@ impl Runner {
 
     fn cleanup(&mut self) {
         self.release_forked();
+        self.snap = None;
         self.dump = None;
         self.kill_store();
         gate::set_mode(Mode::Free);
@@ -895,6 +897,47 @@ impl Runner {
                     }
                 }
             }
+            ["mread", k, a, b] => {
+                // k reader threads share the store and read the same range at the same time
+                let (Ok(k), Ok(a), Ok(b)) = (k.parse::<usize>(), a.parse::<u64>(), b.parse::<u64>()) else {
+                    return self.emit("bad-op");
+                };
+                let Some(s) = self.store.as_ref() else { return self.emit("read none") };
+                if k == 0 || k > 16 {
+                    return self.emit("bad-op");
+                }
+                let barrier = std::sync::Barrier::new(k);
+                let results: Vec<String> = std::thread::scope(|sc| {
+                    let hs: Vec<_> = (0..k)
+                        .map(|_| {
+                            sc.spawn(|| {
+                                barrier.wait();
+                                let r = catch_unwind(AssertUnwindSafe(|| {
+                                    let mut items = vec![];
+                                    for x in s.read(a, b) {
+                                        match x {
+                                            Ok((id, p)) => items.push(format!("{}:{}", show_id(&id), show_bytes(&p))),
+                                            Err(e) => items.push(format!("err:{}", err_kind(&e))),
+                                        }
+                                    }
+                                    items.join(";")
+                                }));
+                                r.unwrap_or_else(|_| "panic".to_string())
+                            })
+                        })
+                        .collect();
+                    hs.into_iter().map(|h| h.join().unwrap_or_else(|_| "panic".to_string())).collect()
+                });
+                if results.iter().all(|r| r == &results[0]) {
+                    let stop = results[0].ends_with("panic");
+                    self.emit(&format!("read {}", results[0]));
+                    if stop {
+                        self.stopped = true;
+                    }
+                } else {
+                    self.emit(&format!("read diverged {}", results.join(" || ")));
+                }
+            }
             ["iter"] => {
                 let Some(s) = self.store.as_ref() else { return self.emit("iter none") };
                 let r = catch_unwind(AssertUnwindSafe(|| {
@@ -917,6 +960,43 @@ impl Runner {
                 }));
                 match r {
                     Ok(items) => self.emit(&format!("iter {}", items.join(";"))),
+                    Err(_) => {
+                        self.emit("iter panic");
+                        self.stopped = true;
+                    }
+                }
+            }
+            ["snap"] => {
+                // a snapshot that is kept while the store goes on
+                let Some(s) = self.store.as_ref() else { return self.emit("snap none") };
+                match catch_unwind(AssertUnwindSafe(|| s.dump_data())) {
+                    Ok(d) => {
+                        self.snap = Some(d);
+                        self.emit("snap ok");
+                    }
+                    Err(_) => {
+                        self.emit("snap panic");
+                        self.stopped = true;
+                    }
+                }
+            }
+            ["snapiter"] => {
+                let Some(mut d) = self.snap.take() else { return self.emit("iter none") };
+                let r = catch_unwind(AssertUnwindSafe(|| {
+                    let mut items = vec![];
+                    for x in d.iter() {
+                        match x {
+                            Ok((id, p)) => items.push(format!("{}:{}", show_id(&id), show_bytes(&p))),
+                            Err(e) => items.push(format!("err:{}", err_kind(&e))),
+                        }
+                    }
+                    (items, d)
+                }));
+                match r {
+                    Ok((items, d)) => {
+                        self.snap = Some(d);
+                        self.emit(&format!("iter {}", items.join(";")));
+                    }
                     Err(_) => {
                         self.emit("iter panic");
                         self.stopped = true;
@@ -1398,6 +1478,7 @@ fn main() {
         store: None,
         dump: None,
         held: vec![],
+        snap: None,
         stopped: false,
         timeout: Duration::from_millis(timeout),
     };
